@@ -1,10 +1,10 @@
 module decverif
 
-go 1.23
+go 1.26.0
 
-require golang.org/x/tools v0.29.0
+require golang.org/x/tools v0.50.0
 
 require (
-	golang.org/x/mod v0.22.0 // indirect
-	golang.org/x/sync v0.10.0 // indirect
+	golang.org/x/mod v0.41.0 // indirect
+	golang.org/x/sync v0.23.0 // indirect
 )
